@@ -90,6 +90,9 @@ static bool bytes_or_none(const Tok &t) { return t.kind == Tok::BYTES || t.is_ta
 int main(int argc, char **argv)
 {
   return verif::run_cases(argc, argv, [](const std::vector<Tok> &t, Out &o) {
+    // everything printed for earlier cases is on its way before this one runs, so that a sanitizer abort
+    // is attributed to the right case line
+    std::cout.flush();
     trace::propagation::B3Propagator b3s;
     trace::propagation::B3PropagatorMultiHeader b3m;
     trace::propagation::JaegerPropagator jg;
